@@ -736,6 +736,8 @@ def block_defaults():
         for n, t in S.BLOCK_FIELDS:
             if t == T_INT:
                 DEFAULTS[n] = S.vint(-1)
+            elif t == S.T_SUB:
+                DEFAULTS[n] = V(S.T_SUB, IntVal(-1))
             elif t == T_NAME:
                 DEFAULTS[n] = S.name_lit('')
             elif t[0] == 'seq':
